@@ -1,6 +1,7 @@
 """C07 - differences: panic-freedom, since = -until, zoned differences are zone-aware (narrow)."""
 from ..term import Terms, show, alts, is_call, walk, inline_helpers
 from .. import mir
+from ..rules_pair import ym_pair
 from ..rules_e1 import run_e1, by_names
 from ..rules_dep import run_dep
 
@@ -138,6 +139,7 @@ def run(ctx, rep):
     rep.floor("TZ-DEP returns", n, 3)
     until_search(rep, prog)
     round_largest(rep, prog)
+    ym_pair(rep, prog, floor=15)
 
 
 def round_largest(rep, prog, rule="ROUND-LARGEST"):
